@@ -101,24 +101,146 @@ def eval_cases(ctx, corr, cases, inits, shard=40):
     return corr
 
 
-def _run(ctx):
+CLASS_DENSITY = {1: 1.1, 2: 1.3, 3: 1.5, 4: 1.7, 5: 1.85}      # only for naming a failing input after its soil file
+
+
+def gen_soils(rnd, thorough):
+    """soil profiles for whole runs: both readers (csv: project bulk, txt: project ex1), KA5 classes 1..5, measured
+    densities (csv only), stone contents 0..95 %.  horizon = (lower boundary dm, class, measured string or None, stone %)"""
+    soils = [
+        {"reader": "csv", "hs": [(3, 3, "1.52", 0), (20, 5, None, 0)], "why": "class 5 subsoil"},
+        {"reader": "csv", "hs": [(3, 3, None, 0), (20, 3, None, 70)], "why": "stony subsoil, class 3"},
+        {"reader": "txt", "hs": [(2, 5, None, 10), (9, 1, None, 60), (20, 4, None, 95)], "why": "classes 5/1/4, stones up to 95 %"},
+        {"reader": "txt", "hs": [(4, 2, None, 0), (16, 5, None, 0)], "why": "class 5 subsoil"},
+        {"reader": "csv", "hs": [(3, 1, "0.3", 0), (20, 3, None, 0)], "why": "F17: measured density of an organic topsoil"},
+    ]
+    for k in range(40 if thorough else 3):
+        reader = "csv" if k % 2 == 0 else "txt"
+        nh = rnd.randint(1, 4)
+        n = rnd.choice([20, 20, rnd.randint(6, 20)])
+        cuts = sorted(rnd.sample(range(1, n), min(nh - 1, n - 1))) + [n]
+        hs = []
+        for u in cuts:
+            m = None
+            if reader == "csv" and rnd.random() < 0.5:
+                m = rnd.choice(["0.567", "2.3", "%.2f" % rnd.uniform(0.567, 2.3), "%.3f" % rnd.uniform(0.6, 2.0), "%.1f" % rnd.uniform(0.6, 2.3)])
+            hs.append((u, rnd.randint(1, 5), m, rnd.choice([0, 0, 5, 30, 62, 70, 85, 95, rnd.randint(0, 95)])))
+        soils.append({"reader": reader, "hs": hs, "why": "random"})
+    for i, so in enumerate(soils):
+        so["sid"] = "S%02d" % i if so["reader"] == "csv" else "%03d" % (900 + i)
+        so["input_density"] = [float(m) if m is not None else CLASS_DENSITY[c] for (_, c, m, _) in so["hs"]]
+    return soils
+
+
+def write_soils(ex, soils):
+    csvp = os.path.join(ex, "project", "bulk", "soil_bulk.csv")
+    txtp = os.path.join(ex, "project", "ex1", "soil_ex1.txt")
+    with open(csvp, "a") as fc, open(txtp, "a") as ft:
+        fc.write("\n"); ft.write("\n")
+        for so in soils:
+            nh = len(so["hs"])
+            for k, (u, c, m, st) in enumerate(so["hs"]):
+                if so["reader"] == "csv":
+                    # SID,C_org,Texture,LayerDepth,BulkDensityClass,BulkDensity,Stone,C/N,C/S,RootDepth,NumberHorizon,FC,WP,PV,Sand,Silt,Clay,DrainageDepth,Drainage%,GW
+                    if k == 0:
+                        fc.write("%s,0.70,SL3,%02d,%d,%s,%02d,10,00,05,%02d,20,09,40,78,13,09,20,00,99\n" % (so["sid"], u, c, m or "", st, nh))
+                    else:
+                        fc.write("%s,0.31,SL3,%02d,%d,%s,%02d,10,00,,,18,09,40,77,13,10,20,00,   \n" % (so["sid"], u, c, m or "", st))
+                else:
+                    # fixed columns: [0:3] SID [4:8] Corg [9:12] texture [13:15] depth [16:17] class [18:20] stone ... [32:34] root depth [35:37] horizons
+                    if k == 0:
+                        ft.write("%s 1.14 ULS %02d %d %02d 10      00 05 %02d   31 16 45 26 63 11 00  20   00 99 01\n" % (so["sid"], u, c, st, nh))
+                    else:
+                        ft.write("%s 0.40 ULS %02d %d %02d 10      00         29 19 45 26 63 11 00  20   00       \n" % (so["sid"], u, c, st))
+
+
+def plan_runs(ctx):
+    """(examples dir, [{line, soil or None}])"""
+    import json, random
     ex = waterlib.prepare_examples(ctx, extreme_rain=False)
+    mark = os.path.join(ex, ".c19.json")
+    if os.path.exists(mark):
+        return ex, json.load(open(mark))
     nl, endy = (8, 2000) if ctx.thorough else (3, 1984)
-    lines = []
+    plan = []
     for i, (ln, fmt) in enumerate(TRACE[:nl]):
         end = ("1231%d" if fmt == "EN" else "3112%d") % endy
-        lines.append("%s EndDate=%s resultfolder=R/c19_%d" % (ln, end, i))
+        plan.append({"line": "%s EndDate=%s resultfolder=R/c19_%d" % (ln, end, i), "soil": None})
+    soils = gen_soils(random.Random(ctx.seed), ctx.thorough)
+    write_soils(ex, soils)
+    for so in soils:
+        base = ("project=bulk WeatherFolder=historical soilId=%s fcode=109_120 plotNr=10002 Altitude=73 Latitude=52.6732 poligonID=29872"
+                if so["reader"] == "csv" else
+                "project=ex1 WeatherFolder=historical soilId=%s fcode=109_120 plotNr=10001 Altitude=73 Latitude=52.6732 poligonID=29872") % so["sid"]
+        plan.append({"line": "%s EndDate=12311981 resultfolder=R/c19_%d @every=%d" % (base, len(plan), 60 if ctx.thorough else 16), "soil": so})
+    json.dump(plan, open(mark, "w"))
+    return ex, plan
+
+
+def _run(ctx):
+    ex, plan = plan_runs(ctx)
     lf = os.path.join(ctx.work, "c19_lines.txt")
     with open(lf, "w") as f:
-        f.write("\n".join(lines) + "\n")
+        f.write("\n".join(p["line"] for p in plan) + "\n")
     synth, runs, days, every = (8000, 300, 3000, 40) if ctx.thorough else (400, 16, 2000, 8)
-    return waterlib.run_harness(ctx, "c19", ["-seed", str(ctx.seed), "-synth", str(synth), "-runs", str(runs), "-days", str(days),
-                                             "-work", ex, "-lines", lf, "-every", str(every)], timeout=3000)
+    res = waterlib.run_harness(ctx, "c19", ["-seed", str(ctx.seed), "-synth", str(synth), "-runs", str(runs), "-days", str(days),
+                                            "-work", ex, "-lines", lf, "-every", str(every)], timeout=3000)
+    return res + (plan,)
+
+
+def dec_lit(m):
+    """decimal string of the soil file -> the float strconv.ParseFloat yields: m*10^-k as one correctly rounded division"""
+    ip, _, fp = m.partition(".")
+    return "(dec %d%%Z %d%%nat)" % (int(ip + fp), len(fp))
+
+
+def eval_bd(ctx, corr, inits, plan):
+    """g.BD of every 10-cm layer after Input against the soil file of the generated runs"""
+    recs, meta = [], []
+    for it in inits:
+        so = plan[it["line"]]["soil"]
+        if so is None:
+            continue
+        hs = "[" + "; ".join("(%d%%Z, %d%%Z, %s)" % (u, c, "Some " + dec_lit(m) if m is not None else "None") for (u, c, m, st) in so["hs"]) + "]"
+        recs.append("(%s, %s)" % (hs, fls(it["bd"])))
+        meta.append({"soil": so, "observed_bd": [float.fromhex(x) for x in it["bd"]], "bulk": [float.fromhex(x) for x in it["bulk"]],
+                     "ld": it["ld"], "ukt": it["ukt"], "stein": [float.fromhex(x) for x in it["stein"]]})
+    if not recs:
+        corr.mismatches.append({"kind": "coverage-missing", "what": "no generated-soil run reached the day loop"})
+        return
+    body = HDR + ["Definition cases : list (list (Z * Z * option float) * list float) := [\n%s\n]." % ";\n".join(recs),
+                  "Definition M := Eval vm_compute in mismatches bd_check 0%nat cases.", "Print M."]
+    rc, o = ctx.coq_eval("Cases_soiltemp_bd", "\n".join(body) + "\n", timeout=600)
+    ok, pairs = parse_M(o)
+    if rc != 0 or not ok:
+        corr.mismatches.append({"kind": "coq-eval", "shard": "Cases_soiltemp_bd", "output": o[-1200:]})
+        return
+    for idx, _ in pairs:
+        corr.mismatches.append(dict({"kind": "layer-bulk-density (g.BD is not the soil file's density of that horizon)"}, **meta[idx]))
+    corr.cases += len(recs)
+    for m in meta:
+        corr.bump("soil-reader=" + m["soil"]["reader"])
+        for (u, c_, ms, st) in m["soil"]["hs"]:
+            corr.bump("horizon=" + ("measured" if ms is not None else "class%d" % c_))
+            corr.bump("stones=" + ("0" if st == 0 else "1-49%" if st < 50 else "50-95%"))
+
+
+def fail_key(line_key, plan):
+    """name a failing traced run after its soil FILE: only an input density below 0.567 is the recorded finding F17"""
+    m = re.match(r"envelope:traced-line-(\d+)$", line_key)
+    if not m or int(m.group(1)) >= len(plan) or plan[int(m.group(1))]["soil"] is None:
+        return line_key, None
+    so = plan[int(m.group(1))]["soil"]
+    lowest = min(so["input_density"])
+    desc = "%s-reader:%s" % (so["reader"], "/".join("%s%s-stone%d" % ("bd" + ms if ms is not None else "class%d" % c, "", st) for (u, c, ms, st) in so["hs"]))
+    if lowest < 0.567:
+        return "bulk-density-below-0.567:input-density=%s" % lowest, so
+    return "envelope:generated-soil:%s" % desc, so
 
 
 def correspond(ctx):
     c = Corr()
-    rc, rows, oracle_lines, other, err = _run(ctx)
+    rc, rows, oracle_lines, other, err, plan = _run(ctx)
     if rc != 0:
         c.mismatches.append({"kind": "harness-crash", "stderr": err[-1500:]})
         return c
@@ -132,6 +254,7 @@ def correspond(ctx):
         if x["k"] == "replaydiff":
             c.mismatches.append({"kind": "trace-replay-differs (state between the probes is not Soiltemp's alone)", "at": x})
     eval_cases(ctx, c, cases, inits)
+    eval_bd(ctx, c, inits, plan)
     seen = set()
     for cs in cases:
         i, o = cs["in"], cs["out"]
@@ -156,10 +279,15 @@ def correspond(ctx):
 
 
 def oracle(ctx, search):
-    rc, rows, oracle_lines, other, err = _run(ctx)
+    rc, rows, oracle_lines, other, err, plan = _run(ctx)
     fails = []
     if rc != 0:
         fails.append(Fail(key="harness-crash", what="Soiltemp run aborted", stderr=err[-800:]))
     for l in oracle_lines:
-        fails.append(Fail(key=l.split(" ")[0][:90], what=l[:600]))
+        key, soil = fail_key(l.split(" ")[0], plan)
+        f = Fail(key=key[:160], what=l[:600])
+        if soil is not None:
+            f["soil_file"] = {k: soil[k] for k in ("reader", "sid", "hs", "input_density", "why")}
+            f["batch_line"] = [p["line"] for p in plan if p["soil"] is soil][0]
+        fails.append(f)
     return fails
